@@ -72,6 +72,10 @@ func ValidateAgainstSingleSchema(values Values, schemaJSON []byte) (reterr error
 	slog.Debug("unmarshalled JSON schema", "schema", schemaJSON)
 
 	compiler := jsonschema.NewCompiler()
+	// The schema comes with the chart: a "$ref" in it must not reach files of the
+	// host (the default loader opens file:// URLs) or the network. With no scheme
+	// registered, loading anything but the resource added below fails.
+	compiler.UseLoader(jsonschema.SchemeURLLoader{})
 	err = compiler.AddResource("file:///values.schema.json", schema)
 	if err != nil {
 		return err
